@@ -296,7 +296,7 @@ def mk_obstacle(F, kind):
 
 WINDOWS = {  # (time_begin, time_end) relative to the horizons above (initial step 1, predictions 2..4)
     "before the horizon": (0, 0), "at the initial step": (1, 1), "inside": (2, 3), "last predicted step": (4, 6), "after the horizon": (7, 9),
-    "window over everything": (0, 200), "begin = end inside": (3, 3),
+    "window over everything": (0, 200), "begin = end inside": (3, 3), "begins two steps before the obstacle appears": (-1, 6),
 }
 
 
